@@ -63,9 +63,22 @@ class Lock:
 # Builds
 
 
+def regenerate_facts():
+    """factx: regenerate lean/Dirk/Gen/Facts.lean from /repo's current source (rewritten only when it changes)."""
+    fx = os.path.join(WORK, "factx-bin")
+    rc, o, e = sh(["go", "build", "-o", fx, "."], cwd=os.path.join(VERIF, "factx"), env=GOENV, timeout=600)
+    if rc != 0:
+        raise Broken("factx-build", (o + e)[-2000:])
+    rc, o, e = sh([fx, REPO, os.path.join(LEAN, "Dirk", "Gen", "Facts.lean")], timeout=120)
+    if rc != 0:
+        raise Broken("factx-run", (o + e)[-2000:])
+
+
 def build_lean(targets=None):
-    """lake build under a lock; raises Broken with the compiler output on failure."""
+    """regenerate the facts, then lake build under a lock; raises Broken with the compiler output on failure."""
     with Lock(os.path.join(LEAN, ".lake", "verif.lock")):
+        os.makedirs(WORK, exist_ok=True)
+        regenerate_facts()
         cmd = ["lake", "build"] + (targets or [])
         rc, out, err = sh(cmd, cwd=LEAN, timeout=3600)
         if rc != 0:
@@ -276,8 +289,12 @@ class Report:
             lines.append("VIOLATION property=%s replay=%s" % (self.pid, path))
             rc = 1
         seen_broken = set()
+        concrete = reported > 0
+        self.cov["broken_ties"] = [w for w, _, _ in self.broken]
         for what, detail, found in self.broken:
-            if found or what in seen_broken:
+            # a tie or proof that no longer checks is reported on its own only when the violation search
+            # found no concrete failing input
+            if found or concrete or what in seen_broken:
                 continue
             seen_broken.add(what)
             reported += 1
